@@ -98,6 +98,30 @@ pub fn run(scenario: Lookup, all: &[&str]) -> ! {
             }
             0
         }
+        "selfreplay" => {
+            // dsim selfreplay Cxx <start> <count>: record every run, replay it strictly from its tapes,
+            // demand the same fingerprint, outcome and violation count
+            let sc = scenario(&args[2]).expect("scenario");
+            let start: u64 = args[3].parse().unwrap();
+            let count: u64 = args[4].parse().unwrap();
+            let mut bad = 0;
+            for index in start..start + count {
+                let rs = driver::run_seed(DEFAULT_SEED, sc.id(), index);
+                let plan = sc.gen(rs, Tier::Quick);
+                let a = sc.run(&plan, engine::Mode::Fresh(rs));
+                let b = sc.run(&plan, engine::Mode::Replay { tapes: a.tapes.clone(), lenient: false });
+                if a.fingerprint != b.fingerprint || a.outcome != b.outcome || a.violations.len() != b.violations.len() {
+                    bad += 1;
+                    println!("replay mismatch at index {}: {:016x}/{:?} vs {:016x}/{:?}", index, a.fingerprint, a.outcome, b.fingerprint, b.outcome);
+                }
+            }
+            println!("selfreplay {}: {} runs recorded and replayed, {} mismatches", sc.id(), count, bad);
+            if bad > 0 {
+                2
+            } else {
+                0
+            }
+        }
         "serve16" => {
             crate::scen::feature::serve();
             0
